@@ -44,6 +44,11 @@ func TestCheck(t *testing.T) {
 		rt.Case()
 		kind := kinds[r.IntN(3)]
 		spec := limgen.Gen(r, kind, limgen.Opts{NoProbe: true})
+		spec.Debug = r.IntN(5) == 0 // a debug-enabled logger must not change behaviour
+		if kind != "aimd" && r.IntN(12) == 0 {
+			spec.Smoothing = []float64{1.5, 2.5, -1, 1.0000001}[r.IntN(4)] // out of range: the constructors fall back to their documented default
+			rt.Count("cases_with_out_of_range_smoothing", 1)
+		}
 		pre := genPrefix(r, r.IntN(120))
 		class := r.IntN(24) // 0-2: estimate exactly at its maximum, 3-4: estimate above its maximum, else: PRNG history
 		aboveMax := class == 3 || class == 4
@@ -73,6 +78,23 @@ func TestCheck(t *testing.T) {
 				pre = append(pre, limgen.Sample{RTT: b0 + r.Int64N(b0), InFlight: 0})
 			}
 			rt.Count("pairs_from_an_estimate_exactly_at_its_maximum", 1)
+		}
+		grown := class == 5 || class == 6
+		if grown {
+			// an estimate that has just grown into its maximum: started a few steps below it, then a healthy saturated run
+			if kind == "vegas" && r.IntN(2) == 0 {
+				spec.Max = 5 + r.IntN(60)
+			}
+			spec.Initial = spec.Max - r.IntN(7)
+			if spec.Initial < 1 {
+				spec.Initial = 1
+			}
+			b0 := int64(1) << uint(4+r.IntN(24))
+			pre = []limgen.Sample{{RTT: b0, InFlight: spec.Max}}
+			for i := 1 + r.IntN(8); i > 0; i-- {
+				pre = append(pre, limgen.Sample{RTT: b0, InFlight: spec.Max + 1})
+			}
+			rt.Count("pairs_from_an_estimate_grown_into_its_maximum", 1)
 		}
 		seed := int64(r.Uint64() >> 1)
 		build := func() core.Limit {
@@ -131,6 +153,10 @@ func TestCheck(t *testing.T) {
 			lo = base
 			hi = lo + lo*int64(1+r.IntN(40))/8
 		}
+		if grown {
+			lo = base + base*int64(r.IntN(16))/100
+			hi = lo + gap + base*int64(5+r.IntN(60))/100
+		}
 		if aboveMax && kind == "gradient2" {
 			hi = lo + gap + r.Int64N(8*lo+2)
 		}
@@ -150,8 +176,8 @@ func TestCheck(t *testing.T) {
 		rt.Count("pairs", 1)
 		if eb > ea {
 			class := "estimate-in-range"
-			if before > spec.Max {
-				class = "estimate-above-max" // only reachable with initial > max
+			if before > spec.Max && spec.Initial > spec.Max {
+				class = "estimate-above-max" // the state a limit built with initial > max starts in
 			}
 			rt.Violation("C08/"+kind+"/higher-rtt-gave-higher-estimate/"+class, idx, rt.J{"spec": spec, "prefix_len": len(pre), "math_rand_seed": seed,
 				"estimate_before": before, "baseline": base, "rtt_lo": lo, "rtt_hi": hi, "inflight": inflight, "drop": drop,
